@@ -794,3 +794,184 @@ def strategies(clean_fraction=True):
         return mix(lambda clean: find(clean, svc))
 
     return SimpleNamespace(single=mix(single), find=mix(find), retrieve=mix(retrieve), find_one=find_one, single_raw=single, find_raw=find, retrieve_raw=retrieve)
+
+
+# --------------------------------------------------------------------------------------------- C19: context-ID paths
+# one SOP class per request type; a layout says on which context IDs these SOP classes were accepted
+CTX_SOP = {
+    "C-ECHO": "1.2.840.10008.1.1",
+    "C-STORE": STORE_UID,
+    "C-FIND": "1.2.840.10008.5.1.4.1.2.1.1",
+    "C-GET": "1.2.840.10008.5.1.4.1.2.1.3",
+    "C-MOVE": "1.2.840.10008.5.1.4.1.2.1.2",
+    "N-EVENT-REPORT": "1.2.840.10008.5.1.1.16",
+    "N-GET": "1.2.840.10008.5.1.1.40",
+    "N-SET": "1.2.840.10008.3.1.2.3.3",
+    "N-ACTION": "1.2.840.10008.1.20.1",
+    "N-CREATE": "1.2.840.10008.3.1.2.3.3",
+    "N-DELETE": "1.2.840.10008.5.1.1.1",
+    "C-CANCEL": None,
+}
+RTYPES = sorted(CTX_SOP)
+PATHS = ("serve", "recv", "recv-chunked", "cget-scu", "cmove-scu")
+
+
+class _SyncThread:
+    """Stand-in for threading.Thread inside pynetdicom.dimse: N-EVENT-REPORT requests are served in a new thread by
+    DIMSEServiceProvider.receive_primitive; here the target runs synchronously in the caller."""
+
+    def __init__(self, target=None, args=(), kwargs=None, **_):
+        self._t, self._a, self._k = target, args, kwargs or {}
+
+    def start(self):
+        self._t(*self._a, **self._k)
+
+    def join(self, timeout=None):
+        pass
+
+    def is_alive(self):
+        return False
+
+
+def _recording_handlers(a, log):
+    """Bind a handler to every DIMSE intervention event; each returns/yields a valid 'Success' result."""
+    from pynetdicom import evt
+
+    def simple(event):
+        log.calls += 1
+        log.events.append(event.event.name)
+        return 0x0000
+
+    def pair(event):
+        log.calls += 1
+        log.events.append(event.event.name)
+        return 0x0000, None
+
+    def find(event):
+        log.calls += 1
+        log.events.append(event.event.name)
+        yield 0x0000, None
+
+    def get(event):
+        log.calls += 1
+        log.events.append(event.event.name)
+        yield 0
+
+    def move(event):
+        log.calls += 1
+        log.events.append(event.event.name)
+        yield None, None
+        yield 0
+
+    table = {
+        "EVT_C_ECHO": simple,
+        "EVT_C_STORE": simple,
+        "EVT_N_DELETE": simple,
+        "EVT_C_FIND": find,
+        "EVT_C_GET": get,
+        "EVT_C_MOVE": move,
+        "EVT_N_GET": pair,
+        "EVT_N_SET": pair,
+        "EVT_N_ACTION": pair,
+        "EVT_N_CREATE": pair,
+        "EVT_N_EVENT_REPORT": pair,
+    }
+    for name, h in table.items():
+        a.bind(getattr(evt, name), h)
+
+
+def run_ctx_case(case):
+    """case = {"layout": [[rtype, context_id, tsname], ...]   accepted contexts (SOP class CTX_SOP[rtype])
+               "rejected": [ids],  "path": one of PATHS, "rtype": request type, "cid": 0..255, "max_pdu": int}
+    -> Obs (+ .raised: exception escaping the receive path, .accepted: set of accepted IDs)"""
+    import pynetdicom.dimse as D
+    from pynetdicom import _config
+    from pynetdicom import dimse_primitives as P
+    from pynetdicom.presentation import build_context
+
+    path, rtype, cid = case["path"], case["rtype"], case["cid"]
+    scu = path in ("cget-scu", "cmove-scu")
+    contexts = []
+    for rt, i, tsname in case["layout"]:
+        if scu:
+            # requestor side of a retrieve: storage contexts with the SCP role, everything else as SCU
+            as_scp = rt == "C-STORE"
+            contexts.append((CTX_SOP[rt], TS[tsname][0], not as_scp, as_scp, i))
+        else:
+            contexts.append((CTX_SOP[rt], TS[tsname][0], False, True, i))
+    obs = Obs()
+    obs.raised = None
+    a = E3.mk("requestor" if scu else "acceptor", contexts)
+    obs.accepted = set(a._accepted_cx)
+    rej = []
+    for i in case.get("rejected") or []:
+        cx = build_context(CTX_SOP["C-FIND"])
+        cx.context_id, cx.result = i, 3
+        rej.append(cx)
+    a._rejected_cx = rej
+    _recording_handlers(a, obs.log)
+
+    tsname = "implicit"
+    for rt, i, t in case["layout"]:
+        if i == cid:
+            tsname = t
+    req = mk_request(rtype, CTX_SOP[rtype], 7, tsname)
+    old_thread, old_chunk = D.threading, _config.STORE_RECV_CHUNKED_DATASET
+    D.threading = type("T", (), {"Thread": _SyncThread})
+    _config.STORE_RECV_CHUNKED_DATASET = path == "recv-chunked"
+    try:
+        with E3.no_sleep(), warnings.catch_warnings():
+            warnings.simplefilter("ignore")
+            try:
+                if path == "serve":
+                    a._serve_request(req, cid)
+                elif path in ("recv", "recv-chunked"):
+                    E3.inject_message(a, req, cid, case.get("max_pdu", 16382))
+                    # what Association._run_reactor does with a completely received message
+                    cx_id, msg = a.dimse.get_msg(block=False)
+                    if msg:
+                        a._serve_request(msg, cx_id)
+                else:
+                    model = CTX_SOP["C-GET" if path == "cget-scu" else "C-MOVE"]
+                    from pydicom.dataset import Dataset
+
+                    ident = Dataset()
+                    ident.QueryRetrieveLevel = "PATIENT"
+                    ident.PatientID = "1"
+                    model_ids = [i for rt, i, _ in case["layout"] if CTX_SOP[rt] == model]
+                    # the peer's messages are already queued when the SCU starts waiting: the request under test
+                    # followed by the final retrieve response
+                    E3.inject_message(a, req, cid, case.get("max_pdu", 16382))
+                    fin = P.C_GET() if path == "cget-scu" else P.C_MOVE()
+                    fin.MessageIDBeingRespondedTo = 1
+                    fin.AffectedSOPClassUID = model
+                    fin.Status = 0x0000
+                    fin.NumberOfCompletedSuboperations = 0
+                    fin.NumberOfFailedSuboperations = 0
+                    fin.NumberOfWarningSuboperations = 0
+                    E3.inject_message(a, fin, model_ids[0])
+                    n0 = len(a.sent)
+                    if path == "cget-scu":
+                        gen = a.send_c_get(ident, model, msg_id=1)
+                    else:
+                        gen = a.send_c_move(ident, "DEST", model, msg_id=1)
+                    obs.scu_yields = [(s.get("Status"), i) for s, i in gen]
+                    obs.request_sent = len(a.sent) > n0
+            except Exception as e:  # noqa: BLE001
+                obs.raised = e
+    finally:
+        D.threading, _config.STORE_RECV_CHUNKED_DATASET = old_thread, old_chunk
+        m = a.dimse.message
+        f = getattr(m, "_data_set_file", None) if m is not None else None
+        if f is not None:  # chunked receive left a temporary file behind
+            import os
+
+            try:
+                f.close()
+                os.unlink(f.name)
+            except OSError:
+                pass
+    obs.wire = wire_decode(a.sent)
+    obs.aborted_locally = any(k == "abort" for k, _ in obs.wire)
+    obs.assoc = a
+    return obs
